@@ -490,7 +490,14 @@ func (res *CheckResult) checkSource(source parser.Source) {
 				variableLiterals = append(variableLiterals, *allotment)
 				res.checkExpression(allotment, TypePortion)
 			case *parser.RatioLiteral:
-				sum.Add(sum, allotment.ToRatio())
+				if allotment.Denominator.Sign() == 0 {
+					res.Diagnostics = append(res.Diagnostics, Diagnostic{
+						Range: allotment.Range,
+						Kind:  &DivByZero{},
+					})
+				} else {
+					sum.Add(sum, allotment.ToRatio())
+				}
 			case *parser.RemainingAllotment:
 				if isLast {
 					remainingAllotment = allotment
@@ -543,7 +550,14 @@ func (res *CheckResult) checkDestination(destination parser.Destination) {
 				variableLiterals = append(variableLiterals, *allotment)
 				res.checkExpression(allotment, TypePortion)
 			case *parser.RatioLiteral:
-				sum.Add(sum, allotment.ToRatio())
+				if allotment.Denominator.Sign() == 0 {
+					res.Diagnostics = append(res.Diagnostics, Diagnostic{
+						Range: allotment.Range,
+						Kind:  &DivByZero{},
+					})
+				} else {
+					sum.Add(sum, allotment.ToRatio())
+				}
 			case *parser.RemainingAllotment:
 				if isLast {
 					remainingAllotment = allotment
